@@ -464,3 +464,8 @@ def run(prop: str, tier_: str) -> int:
         "uncontrolled 16-thread stress run; distinct = distinct schedule signatures (switch sequences) with a switch inside kio.serial",
         floor_ok,
     )
+
+
+def replay(prop: str, path: str) -> int:
+    """Histories, fault positions and schedules are functions of (seed, tier): re-run with the recorded ones."""
+    return common.replay_by_rerun(prop, path, run)
